@@ -122,9 +122,20 @@ func vAssert(c bool, label string) {
 func vAssertK(c bool, label, knownID string, region bool) { vAssert(c, label) }
 func vCover(label string)                                   {}
 func vObserve(tag string, vals ...any)                      { fmt.Println(append([]any{"VERIF-OBS", tag}, vals...)...) }
-func vYield()                                               { runtime.Gosched() }
+func vYield() {
+	if vs.on {
+		vsBefore()
+		vsAfter()
+		return
+	}
+	runtime.Gosched()
+}
 func vStep() int                                            { return int(vrtStepN.Add(1)) }
-func vJoinAll()                                             { vrtWG.Wait() }
+func vJoinAll() {
+	vsHandoff()
+	vrtWG.Wait()
+	vsAfter()
+}
 func vSymbolic() bool                                       { return false }
 func vGoID() int                                            { return 0 }
 func vFuncID(f any) uintptr                                 { return reflect.ValueOf(f).Pointer() }
@@ -137,12 +148,15 @@ func vParam(name string, def int) int {
 }
 
 // vrtRun executes one harness entry under the recorded input vector.
-func vrtRun(t *testing.T, vecJSON, paramsJSON string, entry func()) {
+func vrtRun(t *testing.T, vecJSON, paramsJSON, schedJSON string, entry func()) {
 	json.Unmarshal([]byte(vecJSON), &vrtVec)
 	json.Unmarshal([]byte(paramsJSON), &vrtParams)
+	vsInit(schedJSON)
 	done := make(chan any, 1)
 	go func() {
+		vsRegister(0)
 		defer func() {
+			vsRelease()
 			r := recover()
 			if _, ok := r.(vrtStop); ok {
 				r = nil
@@ -170,3 +184,208 @@ func vrtRun(t *testing.T, vecJSON, paramsJSON string, entry func()) {
 
 // vmCtxExpire is a no-op natively (the harness store returns the deadline error itself).
 func vmCtxExpire(ctx context.Context) {}
+
+// ---- schedule-forcing runtime for concurrent counterexamples (DESIGN A.7).
+// The instrumented replay build calls vsBefore()/vsAfter() around every
+// synchronisation operation and vsGo() for every go statement; goroutines are
+// admitted in the order of the recorded token transfers.
+
+type vsXfer struct {
+	G int    `json:"g"`
+	P int    `json:"p"`
+	K string `json:"k"`
+	N int    `json:"n"`
+}
+
+var vs struct {
+	mu     sync.Mutex
+	cond   *sync.Cond
+	on     bool
+	owner  int
+	log    []vsXfer
+	pos    int
+	points map[int]int
+	ids    map[int64]int
+	nextID int
+}
+
+func vsInit(schedJSON string) {
+	vs.cond = sync.NewCond(&vs.mu)
+	vs.points = map[int]int{}
+	vs.ids = map[int64]int{}
+	vs.nextID = 1
+	if schedJSON == "" || schedJSON == "null" {
+		return
+	}
+	json.Unmarshal([]byte(schedJSON), &vs.log)
+	vs.on = true
+	// periodic wake-ups so that waiters can notice divergence / release
+	go func() {
+		for {
+			time.Sleep(20 * time.Millisecond)
+			vs.mu.Lock()
+			on := vs.on
+			vs.cond.Broadcast()
+			vs.mu.Unlock()
+			if !on {
+				return
+			}
+		}
+	}()
+}
+
+func vsGID() int64 {
+	var buf [64]byte
+	n := runtime.Stack(buf[:], false)
+	// "goroutine 123 ["
+	var id int64
+	for _, c := range buf[10:n] {
+		if c < '0' || c > '9' {
+			break
+		}
+		id = id*10 + int64(c-'0')
+	}
+	return id
+}
+
+func vsRegister(id int) {
+	vs.mu.Lock()
+	vs.ids[vsGID()] = id
+	vs.mu.Unlock()
+}
+
+func vsSelfLocked() (int, bool) {
+	id, ok := vs.ids[vsGID()]
+	return id, ok
+}
+
+// vsWaitOwnerLocked blocks until g holds the token (or the schedule is released).
+func vsWaitOwnerLocked(g int) {
+	start := time.Now()
+	for vs.on && vs.owner != g {
+		vs.cond.Wait()
+		if time.Since(start) > 8*time.Second && vs.on {
+			fmt.Println("VERIF-SCHED-DIVERGED waiting goroutine", g, "owner", vs.owner, "pos", vs.pos, "of", len(vs.log))
+			vs.on = false
+			vs.cond.Broadcast()
+		}
+	}
+}
+
+func vsConsumeLocked(g int, inBefore bool) {
+	p := vs.points[g]
+	for vs.on && vs.pos < len(vs.log) && vs.log[vs.pos].G == g && vs.log[vs.pos].P == p {
+		x := vs.log[vs.pos]
+		vs.pos++
+		vs.owner = x.N
+		vs.cond.Broadcast()
+		if x.K == "preempt" && inBefore {
+			vsWaitOwnerLocked(g)
+			continue
+		}
+		return // block / exit: go on without the token
+	}
+}
+
+func vsBefore() {
+	if !vs.on {
+		return
+	}
+	vs.mu.Lock()
+	defer vs.mu.Unlock()
+	g, ok := vsSelfLocked()
+	if !ok {
+		return
+	}
+	vsWaitOwnerLocked(g)
+	vs.points[g]++
+	vsConsumeLocked(g, true)
+}
+
+func vsAfter() {
+	if !vs.on {
+		return
+	}
+	vs.mu.Lock()
+	defer vs.mu.Unlock()
+	g, ok := vsSelfLocked()
+	if !ok {
+		return
+	}
+	vsWaitOwnerLocked(g)
+}
+
+// vsHandoff performs recorded block transfers at the current point without
+// passing a new point (used by vJoinAll).
+func vsHandoff() {
+	if !vs.on {
+		return
+	}
+	vs.mu.Lock()
+	defer vs.mu.Unlock()
+	g, ok := vsSelfLocked()
+	if !ok {
+		return
+	}
+	vsConsumeLocked(g, false)
+}
+
+func vsGo(f func()) {
+	vrtWG.Add(1)
+	if !vs.on {
+		go func() {
+			defer vrtWG.Done()
+			f()
+		}()
+		return
+	}
+	vs.mu.Lock()
+	id := vs.nextID
+	vs.nextID++
+	vs.mu.Unlock()
+	started := make(chan struct{})
+	go func() {
+		defer vrtWG.Done()
+		vsRegister(id)
+		close(started)
+		vsAfter()
+		defer vsExit()
+		f()
+	}()
+	<-started
+	vsBefore()
+	vsAfter()
+}
+
+func vsExit() {
+	if !vs.on {
+		return
+	}
+	vs.mu.Lock()
+	defer vs.mu.Unlock()
+	g, ok := vsSelfLocked()
+	if !ok {
+		return
+	}
+	p := vs.points[g]
+	if vs.pos < len(vs.log) && vs.log[vs.pos].G == g && vs.log[vs.pos].P == p && vs.log[vs.pos].K == "exit" {
+		vs.owner = vs.log[vs.pos].N
+		vs.pos++
+		vs.cond.Broadcast()
+		return
+	}
+	if vs.owner == g {
+		// beyond the recorded schedule: let everybody run
+		vs.on = false
+		vs.cond.Broadcast()
+	}
+}
+
+func vsRelease() {
+	vs.mu.Lock()
+	vs.on = false
+	if vs.cond != nil {
+		vs.cond.Broadcast()
+	}
+	vs.mu.Unlock()
+}
